@@ -9,5 +9,6 @@ INIT Init
 NEXT Next
 INVARIANT OrderFree
 INVARIANT LeakMatters
+INVARIANT HistoryFree
 INVARIANT Emit
 CHECK_DEADLOCK FALSE
